@@ -405,6 +405,72 @@ pub fn c16_alternating(idx: u64) -> Option<String> {
     None
 }
 
+/// Chains of ONE container kind in which every level has the same style, sweeping the ENUM-valued properties that decide which
+/// child queries a container issues (random and "typical" corpora fix most of them at their defaults): grid chains over
+/// grid-auto-flow x align-items x justify-items (4 x 4 x 4), flex chains over flex-direction x align-items x flex-wrap (4 x 4 x 3),
+/// each under three available spaces, text leaf, depths 6 / 12 / 24.  336 chains.
+pub fn c16_enumsweep(idx: u64) -> Option<String> {
+    let which_avail = idx % 3;
+    let k = idx / 3; // 0..112
+    let aligns = [None, Some(AlignItems::Start), Some(AlignItems::Center), Some(AlignItems::Stretch)];
+    let mut s = Style::default();
+    let desc;
+    if k < 64 {
+        let (f, a, j) = (k % 4, (k / 4) % 4, (k / 16) % 4);
+        s.display = Display::Grid;
+        s.grid_auto_flow = [GridAutoFlow::Row, GridAutoFlow::Column, GridAutoFlow::RowDense, GridAutoFlow::ColumnDense][f as usize];
+        s.align_items = aligns[a as usize];
+        s.justify_items = aligns[j as usize];
+        desc = format!("grid auto-flow {f} (0 row, 1 column, 2 row dense, 3 column dense) align-items {a} justify-items {j} (0 default, 1 start, 2 center, 3 stretch)");
+    } else {
+        let k = k - 64;
+        let (d, a, w) = (k % 4, (k / 4) % 4, (k / 16) % 3);
+        s.display = Display::Flex;
+        s.flex_direction = [FlexDirection::Row, FlexDirection::Column, FlexDirection::RowReverse, FlexDirection::ColumnReverse][d as usize];
+        s.align_items = aligns[a as usize];
+        s.flex_wrap = [FlexWrap::NoWrap, FlexWrap::Wrap, FlexWrap::WrapReverse][w as usize];
+        desc = format!("flex direction {d} (0 row, 1 column, 2 row-reverse, 3 column-reverse) align-items {a} (0 default, 1 start, 2 center, 3 stretch) wrap {w}");
+    }
+    let avail = match which_avail {
+        0 => Size::MAX_CONTENT,
+        1 => Size { width: AvailableSpace::Definite(300.0), height: AvailableSpace::Definite(200.0) },
+        _ => Size { width: AvailableSpace::MinContent, height: AvailableSpace::MaxContent },
+    };
+    let mut counts = vec![];
+    for depth in [6usize, 12, 24] {
+        let mut node = NodeSpec { style: Style::default(), ctx: Some(Ctx::Text(17, 8.0)), children: vec![] };
+        for _ in 0..depth {
+            node = NodeSpec { style: s.clone(), ctx: None, children: vec![node] };
+        }
+        let mut t: TaffyTree<Ctx> = TaffyTree::new();
+        let mut ids = vec![];
+        let root = build(&mut t, &node, &mut ids);
+        MEASURE_CALLS.with(|c| c.set(0));
+        MEASURE_LIMIT.with(|c| c.set(64 * (depth as u64 + 1) + 1));
+        #[cfg(taffy_verif)]
+        {
+            taffy::verif_hooks::reset_queries();
+            taffy::verif_hooks::set_query_limit(200_000);
+        }
+        let r = std::panic::catch_unwind(std::panic::AssertUnwindSafe(|| compute(&mut t, root, avail)));
+        #[cfg(taffy_verif)]
+        taffy::verif_hooks::set_query_limit(u64::MAX);
+        MEASURE_LIMIT.with(|c| c.set(u64::MAX));
+        counts.push(MEASURE_CALLS.with(|c| c.get()));
+        if r.is_err() || counts[counts.len() - 1] > 64 * (depth as u64 + 1) {
+            break;
+        }
+    }
+    let last = *counts.last().unwrap();
+    if counts.len() < 3 || last > counts[0] {
+        return Some(format!(
+            "counts={} {desc} avail {which_avail}: leaf measure calls at depths 6/12/24",
+            counts.iter().map(|x| x.to_string()).collect::<Vec<_>>().join(",")
+        ));
+    }
+    None
+}
+
 /// Extreme-value corpus: trees whose sizes overflow f32 (content-box width f32::MAX plus padding f32::MAX gives +inf) or are
 /// huge but finite.  The laziness clauses must hold for them like for any other tree: a second layout with the same available
 /// space makes no measure call, and no node is dirty after a pass.  Prints one `FAIL extreme <k> ...` line per violated clause.
@@ -482,16 +548,20 @@ pub fn main16(args: &[String]) {
     let n: u64 = args[3].parse().unwrap();
     #[cfg(taffy_verif)]
     taffy::verif_hooks::set_exact_key(args.get(4).map(|s| s == "1").unwrap_or(false));
-    if args[0] == "typical" || args[0] == "alternating" {
-        let alternating = args[0] == "alternating";
+    if args[0] == "typical" || args[0] == "alternating" || args[0] == "enumsweep" {
+        let family: &'static str = match args[0].as_str() { "typical" => "typical", "alternating" => "alternating", _ => "enumsweep" };
         let handles: Vec<_> = (0..16u64)
             .map(|t| {
                 std::thread::spawn(move || {
                     let mut out = vec![];
                     let mut idx = start + t;
                     while idx < start + n {
-                        if let Ok(Some(m)) = std::panic::catch_unwind(|| if alternating { c16_alternating(idx) } else { c16_typical(idx) }) {
-                            out.push(format!("FAIL {idx} {} {m}", if alternating { "alternating" } else { "typical" }));
+                        if let Ok(Some(m)) = std::panic::catch_unwind(|| match family {
+                            "alternating" => c16_alternating(idx),
+                            "enumsweep" => c16_enumsweep(idx),
+                            _ => c16_typical(idx),
+                        }) {
+                            out.push(format!("FAIL {idx} {family} {m}"));
                         }
                         idx += 16;
                     }
